@@ -57,6 +57,13 @@ def one_search(c, classes, g):
     algo = c["algo"]
     if algo == "gp":
         kw = {} if c.get("default_random") else {"random": rnd}
+        if c.get("step") == "xover":
+            # crossover and mutation fire often (the default step crosses over with probability 0.01)
+            from geneticengine.algorithms.gp.operators.combinators import SequenceStep
+            from geneticengine.algorithms.gp.operators.crossover import GenericCrossoverStep
+            from geneticengine.algorithms.gp.operators.mutation import GenericMutationStep
+            from geneticengine.algorithms.gp.operators.selection import TournamentSelection
+            kw["step"] = SequenceStep(TournamentSelection(2), GenericCrossoverStep(0.8), GenericMutationStep(0.5))
         a = GeneticProgramming(problem, budget, rep, population_size=c.get("pop", 8), **kw)
     elif algo == "rs":
         a = RandomSearch(problem, budget, rep, random=rnd)
